@@ -716,3 +716,77 @@ def data_only_names(desc: dict) -> list[int]:
         return r
 
     return [n for n in der if go(n) == (True, True)]
+
+
+# =======================================================================================
+# APPENDED (closing round, seeded C02-7 / C02-8): removal of base quantities (parameter, variable, data set) on a
+# description and on the live model, and putting them back.  New functions only.
+# =======================================================================================
+
+
+def coef_names(desc: dict) -> set[int]:
+    """names read by stoichiometric coefficients (they are evaluated outside the sorted dependency graph)"""
+    out: set[int] = set()
+    for _flux, ent in Oracle(desc).flux_entries():
+        for _cpd, c in ent:
+            if c[0] == "named":
+                out.add(c[1])
+            elif c[0] == "dyn":
+                out |= set(c[2])
+    return out
+
+
+def removable_bases(desc: dict) -> list[tuple[str, int, bool]]:
+    """(kind, name, named_by_a_component) of every plain parameter / plain variable / data set that may be removed
+    through the public API without touching anything the dependency graph does not cover: not read by a coefficient or
+    a readout; a variable only while another variable stays."""
+    taboo = coef_names(desc) | {a for _, _, args in desc["ro"] for a in args}
+    used = {a for _, req, _ in graph_components(desc) for a in req}
+    out = [("par", n, n in used) for n, v in desc["par"] if v[0] == "plain" and n not in taboo]
+    if len(desc["var"]) >= 2:
+        out += [("var", n, n in used) for n, v in desc["var"] if v[0] == "plain" and n not in taboo]
+    out += [("dat", n, n in used) for n, _ in desc["dat"] if n not in taboo]
+    return out
+
+
+def remove_base(desc: dict, kind: str, name: int) -> dict:
+    """The description after remove_parameter / remove_variable (stoichiometric entries of the variable go with it) /
+    remove_data."""
+    d = copy_desc(desc)
+    assert any(it[0] == name for it in desc[kind]), (kind, name)
+    d[kind] = [it for it in desc[kind] if it[0] != name]
+    if kind == "var":
+        d["rxn"] = [(n, f, a, [(c, cf) for c, cf in st if c != name]) for n, f, a, st in desc["rxn"]]
+        d["sur"] = [(n, mf, a, o, [(x, [(c, cf) for c, cf in ent if c != name]) for x, ent in st]) for n, mf, a, o, st in desc["sur"]]
+    return d
+
+
+def apply_remove(m: Any, kind: str, name: int) -> None:
+    if kind == "par":
+        m.remove_parameter(nm(name))
+    elif kind == "var":
+        m.remove_variable(nm(name))
+    elif kind == "dat":
+        m.remove_data(nm(name))
+    else:
+        raise ValueError(kind)
+
+
+def add_base_back(desc: dict, orig: dict, kind: str, name: int) -> dict:
+    """The description after the removed item is declared again (with its original value): it is now the LAST of its
+    kind; stoichiometric entries that went with a removed variable do not come back."""
+    d = copy_desc(desc)
+    d[kind] = list(desc[kind]) + [next(it for it in orig[kind] if it[0] == name)]
+    return d
+
+
+def apply_add_back(m: Any, orig: dict, kind: str, name: int) -> None:
+    it = next(it for it in orig[kind] if it[0] == name)
+    if kind == "par":
+        m.add_parameter(nm(name), py_valia(it[1]))
+    elif kind == "var":
+        m.add_variable(nm(name), py_valia(it[1]))
+    elif kind == "dat":
+        m.add_data(nm(name), it[1])
+    else:
+        raise ValueError(kind)
